@@ -36,6 +36,18 @@ class Awaitable:
         return self.coro.__await__()
 
 
+class ResA:
+    pass
+
+
+class ResB:
+    pass
+
+
+class ResAB(ResA, ResB):
+    pass
+
+
 class Run:
     def __init__(self, prog):
         self.prog = prog
@@ -63,8 +75,25 @@ class Run:
         return {"leaf": 998, "is_exc": isinstance(e, Exception), "other": type(e).__name__ + ":" + str(e)[:80]}
 
     # ---- registration of one callback through its route
-    async def register(self, ctx, cb, from_async=True):
+    async def register_all(self, ctx, cbs):
+        """registers in order; entries marked inside_next are registered from inside the next @context_teardown
+        generator, before its yield (they are registered BEFORE it: the generator's own callback is added when
+        it yields)"""
+        pre = []
+        for cb in cbs:
+            if cb.get("inside_next"):
+                pre.append(cb)
+                continue
+            await self.register(ctx, cb, pre=pre)
+            pre = []
+        for cb in pre:
+            await self.register(ctx, cb)
+
+    async def register(self, ctx, cb, from_async=True, pre=()):
         route = cb["route"]
+        if route != "ctxtd":
+            for p in pre:
+                await self.register(ctx, p)
         if route == "service":
             await self.register_service(ctx, cb)
             return
@@ -73,6 +102,8 @@ class Run:
 
             @context_teardown
             async def gen():
+                for p in pre:
+                    await run.register(ctx, p)
                 exc = yield
                 await run.body_async(ctx, cb, True, exc)
             await gen()
@@ -86,7 +117,11 @@ class Run:
         elif route == "shortcut":
             add_teardown_callback(fn, cb["pass"])
         elif route == "resource":
-            ctx.add_resource(object(), f"res{cb['id']}", teardown_callback=fn)
+            if cb["id"] % 2:
+                # a resource published under two types has ONE teardown callback
+                ctx.add_resource(ResAB(), f"res{cb['id']}", [ResA, ResB], teardown_callback=fn)
+            else:
+                ctx.add_resource(object(), f"res{cb['id']}", teardown_callback=fn)
         else:
             raise AssertionError(route)
 
@@ -98,7 +133,11 @@ class Run:
         elif route == "shortcut":
             add_teardown_callback(fn, cb["pass"])
         elif route == "resource":
-            ctx.add_resource(object(), f"res{cb['id']}", teardown_callback=fn)
+            if cb["id"] % 2:
+                # a resource published under two types has ONE teardown callback
+                ctx.add_resource(ResAB(), f"res{cb['id']}", [ResA, ResB], teardown_callback=fn)
+            else:
+                ctx.add_resource(object(), f"res{cb['id']}", teardown_callback=fn)
         else:
             raise AssertionError(route)
 
@@ -121,8 +160,7 @@ class Run:
         else:
             async def action(*args):
                 run.trace.append({"ev": "Begin", "id": cb["id"], "given": len(args) > 0, "arg": None})
-                for c in cb["adds"]:
-                    await run.register(ctx, c)
+                await run.register_all(ctx, cb["adds"])
                 stop.set()
         await ctx.start_service_task(service, f"svc{cb['id']}", teardown_action=action)
 
@@ -130,9 +168,12 @@ class Run:
         self.trace.append({"ev": "Begin", "id": cb["id"], "given": len(args) > 0,
                            "arg": self.describe(args[0]) if args else None})
 
-    def finish(self, cb):
+    def finish(self, cb, args=()):
         if cb["raises"] is not None:
-            e = self.make_exc(cb["raises"])
+            if cb.get("raises_same") and args and isinstance(args[0], BaseException):
+                e = args[0]            # the callback re-raises the very exception it was handed
+            else:
+                e = self.make_exc(cb["raises"])
             self.trace.append({"ev": "End", "id": cb["id"], "how": "raised", "exc": cb["raises"]})
             raise e
         self.trace.append({"ev": "End", "id": cb["id"], "how": "ok"})
@@ -142,15 +183,14 @@ class Run:
             self.begin(cb, args)
         else:
             self.begin(cb, ())
-        for c in cb["adds"]:
-            await self.register(ctx, c)
+        await self.register_all(ctx, cb["adds"])
         try:
             for _ in range(cb["susp"]):
                 await anyio.sleep(0)
         except anyio.get_cancelled_exc_class():
             self.trace.append({"ev": "End", "id": cb["id"], "how": "cancelled"})
             raise
-        self.finish(cb)
+        self.finish(cb, args if given else ())
 
     def make_fn(self, ctx, cb):
         run = self
@@ -159,7 +199,7 @@ class Run:
                 run.begin(cb, args)
                 for c in cb["adds"]:
                     run.register_sync(ctx, c)
-                run.finish(cb)
+                run.finish(cb, args)
         elif cb["kind"] == "async":
             async def fn(*args):
                 await run.body_async(ctx, cb, len(args) > 0, *args)
@@ -172,8 +212,7 @@ class Run:
 
     # ---- the block
     async def block(self, ctx):
-        for cb in self.prog["cbs"]:
-            await self.register(ctx, cb)
+        await self.register_all(ctx, self.prog["cbs"])
         end = self.prog["ending"]
         if end["k"] == "raise":
             raise self.make_exc(end["exc"])
